@@ -22,7 +22,7 @@ from mc.refmodel import rfc_values as RV
 from mc.refmodel import tree as T
 
 from icalendar.cal import Timezone
-from icalendar.timezone import tzp
+from icalendar.timezone import tzp, TZP
 
 UTC = timezone.utc
 WINDOWS = [(date(1970, 1, 1), date(2038, 1, 1))]
@@ -224,21 +224,26 @@ def eval_points(segs, observances, lo, hi):
 def run_case(case):
     _, provider, key, w0, w1 = case[:5]
     do_regen = case[5] if len(case) > 5 else True
-    env.use_provider(provider)
+    glob = case[6] if len(case) > 6 else None
+    # normally the library-wide provider is the zone's provider; "cross" cases ask an explicit provider object for the
+    # zone while the library-wide provider is the OTHER one (from_tzid's tzp argument, documented)
+    env.use_provider(glob or provider)
+    zp = tzp if glob is None else TZP(provider)
     first, last = date(*w0), date(*w1)
     fails = []
     lo, hi = datetime(first.year, first.month, first.day), datetime(last.year, last.month, last.day)
     try:
-        gen = Timezone.from_tzid(key, first_date=first, last_date=last)
+        gen = Timezone.from_tzid(key, first_date=first, last_date=last) if glob is None else \
+            Timezone.from_tzid(key, zp, first_date=first, last_date=last)
         text = gen.to_ical().decode("utf-8")
     except Exception as e:  # noqa: BLE001
         return {"state": ("gen-raises", key), "trans": 1, "nontrivial": True, "outcome": "generation-raises",
                 "fails": [fail("generation-raises", case, "a VTIMEZONE", f"{type(e).__name__}: {e}")]}
-    tz_src = tzp.timezone(key)
+    tz_src = zp.timezone(key)
     # wall clock of window start in the zone: the library localises first_date 00:00 in the zone
     try:
-        lo_aware = tzp.localize(lo, tz_src)
-        hi_aware = tzp.localize(hi, tz_src)
+        lo_aware = zp.localize(lo, tz_src)
+        hi_aware = zp.localize(hi, tz_src)
         lo_utc = lo_aware.astimezone(UTC).replace(tzinfo=None)
         hi_utc = hi_aware.astimezone(UTC).replace(tzinfo=None)
     except Exception as e:  # noqa: BLE001
@@ -296,7 +301,7 @@ def run_case(case):
         outcome = "rfc-unpredicted" if unpredicted2 else "rfc-known"
     # (3) converted zone
     try:
-        conv = gen.to_tz(tzp, lookup_tzid=False)
+        conv = gen.to_tz(zp, lookup_tzid=False)
     except Exception as e:  # noqa: BLE001
         fails.append(fail("to_tz-raises", case, "a tzinfo", f"{type(e).__name__}: {e}"))
         conv = None
@@ -462,6 +467,14 @@ def run(ctx):
                     yield ("sw", key, w0, w1, order)
 
     ctx.explore("provider-switch histories", gen_switch, run_switch, recheck=False)
+
+    def gen_cross():
+        for key in SWITCH_ZONES:
+            for w0, w1 in ((2020, 1, 1), (2021, 1, 1)), ((1970, 1, 1), (1980, 1, 1)):
+                for provider, glob in (("pytz", "zoneinfo"), ("zoneinfo", "pytz")):
+                    yield ("z", provider, key, w0, w1, False, glob)
+
+    ctx.explore("zone-of-one-provider-under-the-other", gen_cross, run_case, recheck=False)
 
     def gen_edge():
         eras = (2019,) if ctx.quick else (1975, 1995, 2019)
